@@ -21,11 +21,11 @@ RULE = ('one evaluation = one seeded simulated run: either 2-3 clients adding dy
         '(shared object, own objects, processes; Cache or FanoutCache) interleaved by the seeded scheduler and checked for '
         'linearizability against (total, count); or a throttled function (count in {1,2,5} per seconds in {0.5,1,3}) called by 1-3 '
         'tasks with seeded arrival patterns (bursts, idle gaps, steady overload) on the virtual clock, whose recorded start times must '
-        'satisfy starts(window) <= count + rate*length for every window and every call must start; non-trivial = a context switch '
+        'satisfy starts(window) <= count + rate*length for every window and every call must start, including the calls in which the function raises (the admission is spent, the exception comes out); non-trivial = a context switch '
         '(Averager) / at least one call was delayed (throttle); distinct = SHA-256 of the seam event log')
 ASSUMPTIONS = ['throttle is given time_func/sleep_func bound to the virtual clock (the seam the recipe offers); a virtual sleep lasts at least the requested time plus >= 1 microsecond',
                'Averager values are dyadic rationals so sums are exact in any order']
-PROBES = ('throttle_delayed', 'throttle_calls', 'avg_pops', 'lock_wait')
+PROBES = ('throttle_delayed', 'throttle_calls', 'throttle_raising_calls', 'avg_pops', 'lock_wait')
 TECHNIQUE = 'deterministic simulation: seeded schedules + linearizability against (total,count); virtual-clock arrival patterns with a window-bound oracle over recorded start times'
 LEVEL_TEXT = ('seeded exploration of adder/popper interleavings decided by a linearizability search, and of arrival patterns x rates on '
               'a virtual clock decided by the exact window bound over all pairs of recorded start times plus completion of every call.')
@@ -76,6 +76,8 @@ def gen_case(seed, tier):
            'sched': rng.choice(({'kind': 'uniform'}, {'kind': 'sticky', 'p': 0.7})),
            'clock': {'mode': rng.choice(('frozen', 'frozen', 'tick'))}, 'yield_clock': rng.random() < 0.5,
            'expire': rng.choice((None, None, 100))}
+    # in which calls the throttled function raises (the admission is spent all the same; the exception comes out unchanged)
+    cfg['raises'] = [[rng.random() < 0.5 for _ in gaps] if rng.random() < 0.3 else [False] * len(gaps) for gaps in arrivals]
     return {'seed': seed, 'cfg': cfg}
 
 
@@ -143,6 +145,10 @@ def run_averager(case):
 
 # ---- throttle --------------------------------------------------------------------
 
+class WorkError(Exception):
+    """Raised by the throttled function in the calls marked in cfg['raises']."""
+
+
 def run_throttle(case):
     cfg = case['cfg']
     violations = []
@@ -172,10 +178,12 @@ def run_throttle(case):
 
         @dc.throttle(cache, count, seconds, name='thr', expire=cfg['expire'],
                      time_func=time_func, sleep_func=seams.SIM_TIME.sleep)
-        def work(who):
+        def work(who, boom=False):
             starts.append((last_read.get(who, sim.now), who))
             if cfg['work']:
                 sim.sleep(cfg['work'])
+            if boom:
+                raise WorkError(who)
             return who
 
         t_decorated = sim.now
@@ -186,7 +194,14 @@ def run_throttle(case):
                     if gap:
                         sim.sleep(gap)
                     arrivals_log.append((sim.now, i, j))
-                    work('c%d' % i)
+                    boom = bool(cfg.get('raises')) and cfg['raises'][i][j]
+                    try:
+                        got = work('c%d' % i, boom)
+                        if boom or got != 'c%d' % i:
+                            violations.append({'rule': 'C20/throttle-result', 'sig': 'result',
+                                               'detail': 'throttled call returned %r (raising call: %s)' % (got, boom)})
+                    except WorkError:
+                        probes['throttle_raising_calls'] = probes.get('throttle_raising_calls', 0) + 1
                 return True
             return fn
 
